@@ -24,7 +24,7 @@ var c05Specs = []famSpec{
 func init() {
 	register(&run.Prop{
 		ID: "C05",
-		Rule: "case = simple polygon set with holes (nested star polygons in disjoint annuli, combs; validated simple by an exact O(n^2) segment test; outer ccw / holes cw or globally flipped; in half of the cases the paths of the set are listed in random order) + delta (both signs, 0.6 .. 3x the size; |delta|<0.5 in off-tiny-delta) + join type (4) + miter limit {1,1.5,2,5} + arc tolerance {0,0.25,delta/2}; off-groups adds the clusters as separate ClipperOffset groups; off-big: one ring of 200..1200 vertices or 16..64 separate polygons on a grid. " +
+		Rule: "case = simple polygon set with holes (nested star polygons in disjoint annuli, combs; validated simple by an exact O(n^2) segment test; outer ccw / holes cw or globally flipped; in half of the cases the paths of the set are listed in random order) + delta (both signs, 0.6 .. 3x the size; |delta|<0.5 in off-tiny-delta) + join type (4) + miter limit {1,1.5,2,5} + arc tolerance {0,0.25,delta/2}; off-groups adds the clusters as separate ClipperOffset groups, with PreserveCollinear / ReverseSolution switched on at random; off-big: one ring of 200..1200 vertices or 16..64 separate polygons on a grid. " +
 			"Checked (tol = 2 + arc tolerance, k = 1 Round/Bevel, sqrt2 Square, max(miterLimit,sqrt2) Miter): delta>0: input-region points and points delta-tol along every edge's outward normal are inside; every result vertex and every sampled result point is within k*delta+tol of the input region; Round: points closer than delta-tol inside, farther than delta+tol outside. " +
 			"delta<0: the mirror statements for the complement; |delta|<0.5: output equals the input without repeated points; result canonical modulo the global orientation flip (windings in {0,s}). Non-trivial = non-empty result and >= 10 membership comparisons; distinct by input digest.",
 		Assumptions: []string{"exact point-in-region by 128-bit winding; distances in float64 with 0.01 margin", "default arc tolerance is the library's documented 0.002*|delta| when none is given"},
@@ -143,9 +143,16 @@ func c05Run(ctx *run.Ctx, id run.CaseID) {
 	opts := []clip.InflateOption{clip.WithMitterLimit(oc.Miter), clip.WithArcTolerance(oc.ArcTol)}
 	var out Paths
 	sub := fmt.Sprintf("%s/sign=%v", jtName(jt), oc.Delta >= 0)
+	// the offsetter's own options (off-groups only: InflatePaths64 has no way to set them)
+	optPC, optRev := false, false
+	if id.Family == "off-groups" {
+		ro := gen.ForCase(id.Family+"#opts", id.Index, id.Stream)
+		optPC, optRev = ro.Chance(0.4), ro.Chance(0.4)
+		sub += fmt.Sprintf("/pc=%v/rev=%v", optPC, optRev)
+	}
 	if id.Family == "off-groups" {
 		if !ctx.Guard(digest, sub, oc, func() {
-			co := clip.NewClipperOffset(oc.Miter, oc.ArcTol, false, false)
+			co := clip.NewClipperOffset(oc.Miter, oc.ArcTol, optPC, optRev)
 			// one group per path cluster: paths of one cluster are consecutive and nested; split at depth-0 rings
 			start := 0
 			for i := 1; i <= len(oc.Paths); i++ {
@@ -203,7 +210,7 @@ func c05Run(ctx *run.Ctx, id run.CaseID) {
 		return w != 0, !on
 	}
 	s := 1
-	if oc.Flip {
+	if oc.Flip != optRev { // ReverseSolution flips every orientation together
 		s = -1
 	}
 	// canonical modulo flip
